@@ -61,7 +61,7 @@ func DefaultAlphabet() StoreAlphabet {
 		Accounts: []string{"A", "B", ""},
 		Amounts:  []string{"0", "1", "-1", "2", "7", "18446744073709551616", "-18446744073709551616", "1000000000000000000000000000000", "-1000000000000000000000000000000"},
 		Kinds:    []string{"geth", "parity", ""},
-		Ages:     []int{0, 60, 110, 130, 180, 3600},
+		Ages:     []int{0, 60, 110, 130, 180, 3600, -1},
 	}
 }
 
@@ -114,6 +114,16 @@ func GenStoreOp(r *rand.Rand, a StoreAlphabet) StoreOp {
 	}
 }
 
+// setNodeLastSeen: the check-in time a SetNode operation supplies; a negative
+// age stands for "none supplied" (the zero time), which is simply a very old
+// check-in.
+func setNodeLastSeen(o StoreOp, base time.Time) time.Time {
+	if o.AgeSec < 0 {
+		return time.Time{}
+	}
+	return base.Add(-time.Duration(o.AgeSec) * time.Second)
+}
+
 func bigOf(s string) *big.Int {
 	v, ok := new(big.Int).SetString(s, 10)
 	if !ok {
@@ -136,7 +146,7 @@ func ExecStoreOp(s store.Store, o StoreOp, base time.Time) (r ExecResult) {
 	defer func() { r.T1 = time.Now() }()
 	switch o.Op {
 	case "SetNode":
-		err := s.SetNode(store.Node{ID: store.NodeID(o.ID), IsHost: o.IsHost, Kind: o.NodeKind, LastSeen: base.Add(-time.Duration(o.AgeSec) * time.Second), BlockNumber: o.Block, URI: "enode://" + o.ID + "@192.0.2.1:30303"})
+		err := s.SetNode(store.Node{ID: store.NodeID(o.ID), IsHost: o.IsHost, Kind: o.NodeKind, LastSeen: setNodeLastSeen(o, base), BlockNumber: o.Block, URI: "enode://" + o.ID + "@192.0.2.1:30303"})
 		r.Res = errName(err)
 	case "GetNode":
 		n, err := s.GetNode(store.NodeID(o.ID))
@@ -195,7 +205,7 @@ func ModelStoreOp(m *RefStore, o StoreOp, base time.Time, t0, t1 time.Time) (res
 	decidable = true
 	switch o.Op {
 	case "SetNode":
-		res = m.SetNode(store.Node{ID: store.NodeID(o.ID), IsHost: o.IsHost, Kind: o.NodeKind, LastSeen: base.Add(-time.Duration(o.AgeSec) * time.Second), BlockNumber: o.Block, URI: "enode://" + o.ID + "@192.0.2.1:30303"})
+		res = m.SetNode(store.Node{ID: store.NodeID(o.ID), IsHost: o.IsHost, Kind: o.NodeKind, LastSeen: setNodeLastSeen(o, base), BlockNumber: o.Block, URI: "enode://" + o.ID + "@192.0.2.1:30303"})
 	case "GetNode":
 		res, _ = m.GetNode(o.ID)
 	case "GetNodeBalance":
